@@ -481,6 +481,15 @@ fn dump_levels() {
         }
         cur = nxt;
     }
+    // has_rtl on long slices (counters of any width must not wrap): n copies of a level, optionally one odd at the end
+    for n in [127usize, 128, 129, 255, 256, 257, 511, 512, 513, 1024, 65535, 65536, 65537] {
+        for (pat, base, last) in [("odd", 1u8, 1u8), ("odd3", 3, 3), ("even", 0, 0), ("even+odd", 2, 125), ("max", 126, 126)] {
+            let mut v = vec![base; n];
+            v[n - 1] = last;
+            let lv = Level::vec(&v);
+            writeln!(w, "has_rtl_long\t{}\t{}\t{}", n, pat, or_p(guard(|| (unicode_bidi::level::has_rtl(&lv) as u8).to_string()))).unwrap();
+        }
+    }
     writeln!(w, "consts\tltr={}\trtl={}\tLTR_LEVEL={}\tRTL_LEVEL={}\tmax_explicit={}\tmax_implicit={}",
         Level::ltr().number(), Level::rtl().number(), unicode_bidi::LTR_LEVEL.number(), unicode_bidi::RTL_LEVEL.number(),
         Level::max_explicit_depth(), Level::max_implicit_depth()).unwrap();
